@@ -17,6 +17,28 @@ CH_NOTE = ("Trusted: CPython, CrossHair 0.0.110's models of int/bool/str primiti
            "replayed under /venv/bin/python without CrossHair before it is reported.")
 
 CLAIMS = {
+    'C03': dict(
+        engine='CH',
+        technique='solver-driven path exploration of the real scanner pipeline with CrossHair/z3 (finite-choice '
+                  'inputs fixed by solver-decided forks, exhaustion certified by the solver); differential oracle '
+                  '(tree with the block vs tree without it); counterexamples replayed concretely',
+        category='model_checking',
+        text='A namespace with two elements of every kind (functions, records, enumerations and members, callbacks, '
+             'aliases, constants, a class with two properties, two signals, a class struct with two virtual slots and '
+             'their invoker methods, fields) is scanned with one comment block whose name is any of 36 forms: every C '
+             'name, Class:prop, Class::sig, Struct.field, ClassStruct::vfunc, and ten near misses (Class::prop, '
+             'Class:sig, ClassStruct:vfunc, Class::vfunc, Struct:field, Struct::field, field of the other struct, '
+             'missing symbol, namespace name, Class.prop), carrying documentation, Since/Deprecated with and without '
+             'text, Stability, attributes or skip: the effect must be on the named element (a method block also '
+             'documents the virtual method it invokes) and the emitted tree must otherwise equal the tree emitted '
+             'without the block. 23 role/link annotations (constructor, method, value, rename-to, set-/get-property, '
+             'finish/sync/async-func, emitter, virtual, copy/free-func, foreign, ref/unref/set-value/get-value-func, '
+             'setter, getter, default-value, transfer) must appear on the named element with the given target, leave '
+             'the sibling untouched, and change nothing when written under a near-miss name.',
+        design_ref='DESIGN.md section 4, C03',
+        note=CH_NOTE + ' Finite-choice inputs are fixed by solver-decided binary search (vlib/sym.py). Names are chosen '
+             '(dictionary lookups); SECTION blocks, competing rename-to annotations (covered under C05) and '
+             'parameter-level documentation (C01) are outside this check.'),
     'C07': dict(
         engine='CH',
         technique='solver-driven path exploration with CrossHair/z3 (finite-choice inputs fixed by solver-decided forks, '
